@@ -462,7 +462,11 @@ func (c *Chip) dispatch(cmd *Command) result {
 	case 0x22:
 		return c.doMSE(cmd)
 	case 0x86:
-		return c.doGeneralAuthenticate(cmd, chaining)
+		res := c.doGeneralAuthenticate(cmd, chaining)
+		if c.cfg.Personality.FixedWidthLengths && res.sw == SWOK && len(res.data) > 0 {
+			res.data = fixedWidthLengths(res.data)
+		}
+		return res
 	case 0x88:
 		return c.doInternalAuthenticate(cmd)
 	}
@@ -489,4 +493,25 @@ func (c *Chip) scalar(phase string, curve *Curve, peerX, peerY *big.Int) *big.In
 		panic("chipsim: random source failed: " + err.Error())
 	}
 	return k
+}
+
+// fixedWidthLengths re-encodes the dynamic authentication data (7C { 8x ... }) with two-octet length fields (82 hi lo)
+// throughout - legal BER (ISO/IEC 7816-4 lets a card use any of the length forms), written by cards that reserve a fixed
+// header.
+func fixedWidthLengths(data []byte) []byte {
+	tl, err := ParseTLVs(data)
+	if err != nil {
+		return data
+	}
+	var out []byte
+	for _, t := range tl {
+		v := t.Value
+		if t.Tag == 0x7C {
+			v = fixedWidthLengths(v)
+		}
+		out = append(out, encodeTag(t.Tag)...)
+		out = append(out, 0x82, byte(len(v)>>8), byte(len(v)))
+		out = append(out, v...)
+	}
+	return out
 }
